@@ -124,6 +124,8 @@ type c19State struct {
 	nMulti  int // ... with at least two paid farmers
 	nMaster int
 	nSkip   int
+	// denominations that became swap-fee distribution denominations by a parameter change
+	extraDenoms map[string]bool
 }
 
 var c19RewardDenoms = []string{"urwda", "urwdb"}
@@ -131,7 +133,7 @@ var c19RewardDenoms = []string{"urwda", "urwdb"}
 func rewardsAddr() sdk.AccAddress { return authtypes.NewModuleAddress(rewardstypes.ModuleName) }
 
 func (m *lMachine) c19Init() {
-	m.c19 = &c19State{gauges: map[uint64]*c19Gauge{}}
+	m.c19 = &c19State{gauges: map[uint64]*c19Gauge{}, extraDenoms: map[string]bool{}}
 	for _, u := range m.c.Accs[:lNumLP+lNumMM] {
 		for _, d := range c19RewardDenoms {
 			m.c.Fund(u.Addr, sdk.NewCoins(sdk.NewCoin(d, mustInt("1000000000000000000000000"))))
@@ -189,6 +191,10 @@ func (m *lMachine) c19GenOp(rt *rapid.T, i int, k string) lOp {
 			}
 			break
 		}
+	case "distr":
+		// governance changes the denomination swap fees are distributed in
+		op.Pair = rapid.IntRange(0, len(cfg.Apps)-1).Draw(rt, lbl("app"))
+		op.B = rapid.SampledFrom([]string{"ucmdx", "uaaa", "ubbb", "uccc"}).Draw(rt, lbl("denom"))
 	case "gauge":
 		if len(m.pools) == 0 {
 			return lOp{K: "block", Dt: 5}
@@ -218,6 +224,11 @@ func (m *lMachine) c19Apply(i int, op lOp) {
 			}
 		}
 		m.ok["oprice"]++
+	case "distr":
+		if err := m.k.UpdateGenericParams(c.Ctx, cfg.Apps[op.Pair].ID, []string{"SwapFeeDistrDenom"}, []string{op.B}); err == nil {
+			m.ok["distr"]++
+			m.c19.extraDenoms[op.B] = true
+		}
 	case "gauge":
 		pr := m.pools[op.Pool]
 		msg := rewardstypes.NewMsgCreateGauge(pr.app, c.Accs[op.Actor].Addr, c.Ctx.BlockTime().Add(time.Duration(op.Dt)*time.Second), rewardstypes.LiquidityGaugeTypeID,
@@ -269,15 +280,22 @@ type c19Snap struct {
 
 func (m *lMachine) c19AllDenoms() []string {
 	out := append(append([]string{}, c19RewardDenoms...), "ucmdx")
+	add := func(x string) {
+		for _, d := range out {
+			if d == x {
+				return
+			}
+		}
+		out = append(out, x)
+	}
 	for _, a := range m.cs.Cfg.Apps {
 		if a.DistrDenom != "" {
-			dup := false
-			for _, d := range out {
-				dup = dup || d == a.DistrDenom
-			}
-			if !dup {
-				out = append(out, a.DistrDenom)
-			}
+			add(a.DistrDenom)
+		}
+	}
+	for _, d := range m.cs.Cfg.Denoms { // stable order
+		if m.c19.extraDenoms[d] {
+			add(d)
 		}
 	}
 	return out
